@@ -54,8 +54,12 @@ void vp_native_fail(const char *kind, const char *text)
 
 void harness(void);
 
+int vp_trace_on;
+
 int main(void)
 {
+  /* read before the harness replaces environ */
+  vp_trace_on = getenv("VP_TRACE") != NULL;
   harness();
   printf("VP_HARNESS_RETURNED\n");
   return 0;
